@@ -70,7 +70,10 @@ def _lind(draw):
             # a TimeAxis from the first two entries), not necessarily starting at the first point; use of the
             # calculated superoperator inside the eigenbasis of the Hamiltonian
             "tlist": draw(st.sampled_from([None, None]) | st.tuples(st.integers(0, 4), st.integers(1, 3), st.integers(2, 5)).map(list)),
-            "in_basis": draw(st.booleans())}
+            "in_basis": draw(st.booleans()),
+            # the superoperator object was calculated before with another dense step; the propagator used for the
+            # comparison refused a call (unknown method, refinement argument given) before
+            "recalc_from": draw(st.sampled_from([None, None, 1, 3])), "refused_first": draw(st.booleans())}
 
 
 @st.composite
@@ -83,7 +86,10 @@ def _red(draw):
             "mult": draw(st.integers(2, 10)), "dense": draw(st.sampled_from([1, 2, 5])),
             "jit_steps": draw(st.integers(1, 5)), "save": draw(st.booleans()),
             "tlist": draw(st.sampled_from([None, None]) | st.tuples(st.integers(0, 4), st.integers(1, 3), st.integers(2, 5)).map(list)),
-            "in_basis": draw(st.booleans())}
+            "in_basis": draw(st.booleans()),
+            # the superoperator object was calculated before with another dense step; the propagator used for the
+            # comparison refused a call (unknown method, refinement argument given) before
+            "recalc_from": draw(st.sampled_from([None, None, 1, 3])), "refused_first": draw(st.booleans())}
 
 
 def strategy(tier):
@@ -255,6 +261,9 @@ def _check_lind(case, ctx):
     def run_all():
         time, ham, relt = make()
         eso = EvolutionSuperOperator(time, ham, relt, mode="all")
+        if case.get("recalc_from") and case["recalc_from"] != dense:
+            eso.set_dense_dt(case["recalc_from"])
+            eso.calculate()
         eso.set_dense_dt(dense)
         eso.calculate()
         data = numpy.array(eso.data)
@@ -263,6 +272,11 @@ def _check_lind(case, ctx):
         # direct propagation with the same internal step
         time2, ham2, relt2 = make()
         prop = ReducedDensityMatrixPropagator(time2, ham2, relt2)
+        if case.get("refused_first"):
+            try:
+                prop.propagate(ReducedDensityMatrix(data=rho0.copy()), method="no-such-method", Nref=7)
+            except Exception:
+                pass
         rt = prop.propagate(ReducedDensityMatrix(data=rho0.copy()), Nref=dense)
         direct = numpy.array(rt.data)
         extra = _more_uses(qr, case, eso, time, ham, rho0, nt)
@@ -325,12 +339,20 @@ def _check_red(case, ctx):
     def run_all():
         time, ham, relt = make()
         eso = EvolutionSuperOperator(time, ham, relt, mode="all")
+        if case.get("recalc_from") and case["recalc_from"] != dense:
+            eso.set_dense_dt(case["recalc_from"])
+            eso.calculate()
         eso.set_dense_dt(dense)
         eso.calculate()
         data = numpy.array(eso.data)
         applied = [numpy.array(eso.apply(float(t), ReducedDensityMatrix(data=rho0.copy())).data) for t in time.data]
         time2, ham2, relt2 = make()
         prop = ReducedDensityMatrixPropagator(time2, ham2, relt2)
+        if case.get("refused_first"):
+            try:
+                prop.propagate(ReducedDensityMatrix(data=rho0.copy()), method="no-such-method", Nref=7)
+            except Exception:
+                pass
         rt = prop.propagate(ReducedDensityMatrix(data=rho0.copy()), Nref=dense)
         extra = _more_uses(qr, case, eso, time, ham, rho0, nt)
         return data, numpy.array(applied), numpy.array(rt.data), extra
